@@ -559,7 +559,12 @@ impl Resolver<'_> {
 
                 let pipeline = pipeline.ty.clone().unwrap();
                 let pipeline = pipeline.kind.into_function().unwrap().unwrap();
-                let pipeline = pipeline.return_ty.unwrap().into_relation().unwrap();
+                let Some(pipeline) = pipeline.return_ty.and_then(|ty| ty.into_relation()) else {
+                    return Err(Error::new_simple(
+                        "the pipeline of `group` must be a function that returns a relation",
+                    )
+                    .with_span(transform_call.input.span));
+                };
 
                 Some(Ty::new(TyKind::Array(Some(Box::new(Ty::new(
                     ty_tuple_kind([by, pipeline].concat()),
@@ -707,7 +712,7 @@ impl TransformCall {
                 // pipeline's body is resolved, just use its type
                 let Func { body, .. } = pipeline.kind.as_func().unwrap().as_ref();
 
-                let partition_lin = lineage_or_default(body).unwrap();
+                let partition_lin = lineage_or_default(body)?;
                 lineage.columns.extend(partition_lin.columns);
 
                 log::debug!(".. type={lineage}");
@@ -717,7 +722,7 @@ impl TransformCall {
                 // pipeline's body is resolved, just use its type
                 let Func { body, .. } = pipeline.kind.as_func().unwrap().as_ref();
 
-                lineage_or_default(body).unwrap()
+                lineage_or_default(body)?
             }
             Aggregate { assigns } => {
                 let mut lineage = lineage_or_default(&self.input)?;
